@@ -86,7 +86,7 @@ CHECKS = {
     ),
     "C06": dict(
         technique="property-based testing against exact game-theoretic oracles: retrograde tablebases (all 3-man families) and an exhaustive AND/OR mate solver; seeded scheduler for worker interleavings",
-        text="Generated-input search: tablebase mates in 1/3/5 plies (and solver-decided mates on generated sparse positions) must be reported with a winning terminal evaluation at depth n..n+2 for generated seeds, 1-32 scheduled workers; every winning terminal evaluation on a stride sample (quick) / fifth (thorough) of ALL tablebase positions, including drawn ones, must be a tablebase win with a mate-preserving first move.",
+        text="Generated-input search: tablebase mates in 1/3/5 plies (and solver-decided mates on generated sparse positions) must be reported with a winning terminal evaluation at depth n..n+2 for generated seeds, 1-32 scheduled workers; every winning terminal evaluation on a stride sample (quick) / fifth (thorough) of ALL tablebase positions, including drawn ones, must be a tablebase win with a mate-preserving first move. Mined positions whose only mate in one is an en-passant capture, an under-promotion or castling must be found at depth 1-3.",
         note="tablebases built from the rules oracle and self-checked against published maxima; outside the families the first move is proved to keep the mate or counted undecided, never refuted; schedules sampled",
         ref="DESIGN.md 6 C06",
     ),
@@ -122,7 +122,7 @@ CHECKS = {
     ),
     "C18": dict(
         technique="property-based differential testing at the process boundary: generated pre-ucinewgame histories, answer compared with a fresh-process control on tablebase positions with a unique mating move",
-        text="Generated-input search: histories of position/go/stop before ucinewgame that search the one successor whose recording would hide a tablebase mate in 1 or 3; after ucinewgame the engine must answer score cp >= 10000 and the unique mating move, exactly like a freshly started control process (cases whose control misses the mate are discarded and counted).",
+        text="Generated-input search: histories of position/go/stop before ucinewgame that search the one successor whose recording would hide a tablebase mate in 1 or 3; after ucinewgame the engine must answer score cp >= 10000 and the unique mating move, exactly like a freshly started control process (cases whose control misses the mate are discarded and counted). Second part: sessions over 8-48 targets with the worker pool size (RAYON_NUM_THREADS) as generated configuration.",
         note="seed-independent oracle by construction; stale table content that does not change the answer is not observable",
         ref="DESIGN.md 6 C18",
     ),
